@@ -29,7 +29,7 @@ MAX_PROCS = 12
 
 
 def gen_cases(seed, tier):
-    n = 48 if tier == "quick" else 700
+    n = 48 if tier == "quick" else 2400
     return [{"cls": "split", "seed": seed * 1000 + i, "_w": 3} for i in range(n)]
 
 
